@@ -236,8 +236,80 @@ func c13Same(src string, mode Mode, refSrc string, refMode Mode) (kind, detail s
 	return "", "", true
 }
 
+// clause E: option call histories. The mode of a parser is what the LAST call of each option said (default:
+// off); every sequence of <= 4 calls over {WithTolerantMode(true|false), WithSmartSemicolon(true|false)} on a
+// fresh builder, also with a Build in the middle, gives a parser that behaves like the parser of that mode on
+// a probe set that tells the four modes apart.
+var c13OptNames = []string{"WithTolerantMode(true)", "WithTolerantMode(false)", "WithSmartSemicolon(true)", "WithSmartSemicolon(false)"}
+var c13Probes = []string{"a\n(b)", "x = 1 y = 2", "{ a", "f\n[0]\n(g)", "if (c) { a\n(b)", "a; b"}
+
+func c13OptHistory(hist []int) (kind, detail string) {
+	pb := parser.NewBuilder(lexer.NewBuilder())
+	var want Mode
+	var names []string
+	for i, h := range hist {
+		names = append(names, c13OptNames[h])
+		switch h {
+		case 0:
+			pb.WithTolerantMode(true)
+			want.Tolerant = true
+		case 1:
+			pb.WithTolerantMode(false)
+			want.Tolerant = false
+		case 2:
+			pb.WithSmartSemicolon(true)
+			want.Smart = true
+		case 3:
+			pb.WithSmartSemicolon(false)
+			want.Smart = false
+		}
+		if i == len(hist)/2 {
+			parseWith(pb, c13Probes[0]) // a parser is built and used in the middle of the history
+		}
+	}
+	for _, src := range c13Probes {
+		got, ref0 := parseWith(pb, src), parseMode(src, want)
+		if got.Panic != "" || ref0.Panic != "" {
+			continue
+		}
+		if dumpTree(got.Prog) != dumpTree(ref0.Prog) || errsText(got.Errs) != errsText(ref0.Errs) {
+			return "option-history", fmt.Sprintf("builder after %s parses %q to %s with errors %q; a builder of mode %s gives %s with errors %q",
+				strings.Join(names, "."), src, ref.XStmts(got.Prog.Statements), errsText(got.Errs), want, ref.XStmts(ref0.Prog.Statements), errsText(ref0.Errs))
+		}
+	}
+	return "", ""
+}
+
+func c13Options(c *core.Ctx) {
+	for L := 1; L <= 4; L++ {
+		gen.EachSeq(4, L, func(idx []int) bool {
+			if !c.Next() || c.Tick() {
+				return true
+			}
+			c.Inc("option_histories")
+			if k, d := c13OptHistory(idx); k != "" && c.ShrinkOK("E"+k) {
+				sh := core.ShrinkSeq(append([]int{}, idx...), nil, func(x []int) bool { kk, _ := c13OptHistory(x); return kk != "" })
+				_, d2 := c13OptHistory(sh)
+				if d2 != "" {
+					d = d2
+				} else {
+					sh = idx
+				}
+				var names []string
+				for _, h := range sh {
+					names = append(names, c13OptNames[h])
+				}
+				pl, _ := json.Marshal(c13Payload{"E", fmt.Sprint(sh), ""})
+				c.Violate(core.Violation{Kind: "E-" + k, Case: strings.Join(names, "."), Detail: d, Payload: pl, Size: len(sh)})
+			}
+			return true
+		})
+	}
+}
+
 func c13Run(c *core.Ctx) {
 	processWarmup(c)
+	c13Options(c)
 	c13Sink = func(st string) {
 		if c.Distinct("mode_product_states", st) {
 			c.Inc("distinct_mode_product_states")
@@ -549,6 +621,14 @@ func c13Replay(pl json.RawMessage) (string, []core.Violation) {
 	out := fmt.Sprintf("clause %s source %q reference %q", p.Clause, p.Src, p.Src2)
 	var k, d string
 	switch p.Clause {
+	case "E":
+		var hist []int
+		for _, f := range strings.Fields(strings.Trim(p.Src, "[]")) {
+			var x int
+			fmt.Sscan(f, &x)
+			hist = append(hist, x)
+		}
+		k, d = c13OptHistory(hist)
 	case "D":
 		k, d = c13Late(p.Src)
 	case "A":
@@ -567,7 +647,7 @@ func c13Replay(pl json.RawMessage) (string, []core.Violation) {
 func init() {
 	core.Register(&core.PropSpec{
 		ID: "C13", Level: "model_checking",
-		Rule:     "mode product: every token sequence <= n (4 quick, 5 thorough) in space and LF layouts and every statement-family program (simple statements covering each ASI-relevant first token, compound forms with brace-less/block bodies, nested function expressions) in every layout with <= k deviations (k=1 quick, 2 thorough) is parsed in the 4 mode combinations: strict-accepted => tolerant yields the identical tree dump (positions, flags, comments) and no errors; without a line-initial ( or [ the smart flag changes nothing (tree, acceptance, error count); with one, smart == default on the text with ';' inserted before each line-initial INFIX bracket (prefix-position brackets unchanged); on rejected inputs tolerant reports the same first error as strict unless that error is a missing separator or an unclosed block; every fused statement pair (separator dropped, next token cannot continue) and every removal of a trailing run of statement-level closing braces is accepted by tolerant mode with the tree of the intact program. states = distinct states of the mode product (acceptance, error count and tree shape in each of the 4 modes), transitions = parses executed Added: clause B also in tolerant+smart mode; open blocks also without the last / without all semicolons; multi-line tokens followed by ( [ . in 11 templates x 4 literals; the scale family.",
+		Rule:     "mode product: every token sequence <= n (4 quick, 5 thorough) in space and LF layouts and every statement-family program (simple statements covering each ASI-relevant first token, compound forms with brace-less/block bodies, nested function expressions) in every layout with <= k deviations (k=1 quick, 2 thorough) is parsed in the 4 mode combinations: strict-accepted => tolerant yields the identical tree dump (positions, flags, comments) and no errors; without a line-initial ( or [ the smart flag changes nothing (tree, acceptance, error count); with one, smart == default on the text with ';' inserted before each line-initial INFIX bracket (prefix-position brackets unchanged); on rejected inputs tolerant reports the same first error as strict unless that error is a missing separator or an unclosed block; every fused statement pair (separator dropped, next token cannot continue) and every removal of a trailing run of statement-level closing braces is accepted by tolerant mode with the tree of the intact program. states = distinct states of the mode product (acceptance, error count and tree shape in each of the 4 modes), transitions = parses executed Added: clause B also in tolerant+smart mode; open blocks also without the last / without all semicolons; multi-line tokens followed by ( [ . in 11 templates x 4 literals; the scale family; every result also on long-lived builders that carry an unused language extension; clause E: every history of <= 4 option calls {WithTolerantMode(true|false), WithSmartSemicolon(true|false)} on a fresh builder (a parser built in the middle) gives the parser of the mode the last calls name, on 6 probes that tell the modes apart.",
 		Assume:   []string{"bracket roles (infix vs prefix position) come from the harness unparser, cross-checked against goja by C02"},
 		QuickSec: 400, ThorSec: 3000, Run: c13Run, Replay: c13Replay,
 		Evals: "inputs", Nontriv: "accepted_programs", States: "distinct_mode_product_states", Trans: "mode_parses",
